@@ -170,6 +170,16 @@ class Ref(object):
         return [(a, 1), (a, (2, a))]
 
     @expose
+    def view(self):                 # an ordinary getter that hands out the object's own list (no copy)
+        self.log.append(["view"])
+        return self.items
+
+    @expose
+    def unsendable(self, kind="object"):     # a result no serializer can send: the call fails (one by one: nothing after it is made)
+        self.log.append(["unsendable", kind])
+        return object() if kind == "object" else {"k": [1, object()]}
+
+    @expose
     def __total__(self, n=0):       # an exposed custom dunder method is an ordinary remote method
         self.log.append(["__total__", n])
         return [self.counter, len(self.items), n]
@@ -206,7 +216,7 @@ class Ref(object):
         return self.counter
 
 
-EXPOSED = ("incr", "append", "put", "get", "echo", "fail_if", "snapshot", "__total__", "note", "pair", "pairs")     # the harness's own exposure rule
+EXPOSED = ("incr", "append", "put", "get", "echo", "fail_if", "snapshot", "__total__", "note", "pair", "pairs", "view", "unsendable")     # the harness's own exposure rule
 REFUSED_NAMES = ("hidden", "_private", "__secret__", "__dict__", "__class__", "__init__", "nosuch", "incr.x", "snapshot.log",
                  "Incr", "", "incr ", "_pyroId", "log", "counter", "hidden.x", "__getattribute__", "secret_prop", "open_prop")
 NEVER_RUN = ("hidden", "_private", "__secret__", "secret_prop", "open_prop")
@@ -282,7 +292,10 @@ def reference(calls, warmup=None):
         except Exception as x:
             out.fail_pos, out.fail_kind, out.exc = i, "raised", x
             break
-        out.results.append(r)
+        if name == "unsendable":
+            out.fail_pos, out.fail_kind, out.exc = i, "unsendable", None     # the call ran, its result cannot be delivered: it fails
+            break
+        out.results.append(copy.deepcopy(r))       # (a caller of a single call gets the value as it is at THAT moment)
     out.snapshot = ref.snapshot()
     return out
 
@@ -489,6 +502,8 @@ def _short(v, n=90):
 def _exception_matches(ref, got):
     """-> None when `got` is the reference's exception as far as the statement (and the serializers) allow, else a description"""
     want = ref.exc
+    if ref.fail_kind == "unsendable":
+        return None         # (which error class the serializer's refusal arrives as is not the statement's business: any exception will do)
     if ref.fail_kind == "refused":
         if type(got) is AttributeError:
             return None
@@ -550,7 +565,7 @@ def judge(case, ref, out, api, seq=None):
     def add(family, what):
         v.append((family, tag + what))
 
-    fail_family = {"refused": "refused-name-exception", "raised": "method-exception-not-delivered", None: None}[ref.fail_kind]
+    fail_family = {"refused": "refused-name-exception", "raised": "method-exception-not-delivered", "unsendable": "unsendable-result-not-reported", None: None}[ref.fail_kind]
     if out.not_raised:
         add(fail_family or "spurious-exception", out.not_raised)
     if oneway:
@@ -577,11 +592,11 @@ def judge(case, ref, out, api, seq=None):
             upto = min(len(out.results), len(ref.results))
             for i in range(upto):
                 if seq is not None and i < len(seq.results) and not V.same(out.results[i], seq.results[i]):
-                    add("results-differ-from-one-by-one-calls", "result %d (%s) is %s, the same call made on its own (same serializer, identical object) returns %s" % (
+                    add("result-aliased-by-later-call" if case["calls"][i][0] == "view" else "results-differ-from-one-by-one-calls", "result %d (%s) is %s, the same call made on its own (same serializer, identical object) returns %s" % (
                         i, case["calls"][i][0], _short(out.results[i]), _short(seq.results[i])))
                     break
                 if not ext and not V.same(out.results[i], _image(case["ser"], ref.results[i])):
-                    add("results-differ", "result %d (%s) is %s, sequential run gives %s" % (
+                    add("result-aliased-by-later-call" if case["calls"][i][0] == "view" else "results-differ", "result %d (%s) is %s, sequential run gives %s" % (
                         i, case["calls"][i][0], _short(out.results[i]), _short(ref.results[i])))
                     break
             if ref.fail_pos is None:
@@ -615,6 +630,9 @@ def judge(case, ref, out, api, seq=None):
             type(out.snapshot_exc).__name__, _short(out.snapshot_exc.args)))
     elif out.exc_at == "submit" and not out.sent and any(f == "batch-never-sent" for f, _ in v):
         pass    # nothing reached the daemon: the state difference is the same root cause
+    elif ref.fail_kind == "unsendable" and not V.same(out.snapshot, ref.snapshot) and _state_family(ref.snapshot, out.snapshot) == "state:extra-calls-ran":
+        add("unsendable-result-does-not-stop-batch", "a member's result cannot be serialised (the same call made on its own fails, nothing after it is made): the batch "
+            "went on with the calls behind it: %s" % (V.describe_diff(out.snapshot, ref.snapshot),))
     elif not ext and not V.same(out.snapshot, ref.snapshot):
         fam = _state_family(ref.snapshot, out.snapshot)
         add(fam + (":oneway" if oneway else ""), "remote object after the batch differs from the sequential run: %s" % (
@@ -698,7 +716,7 @@ _total = _fixed("__total__", small_ints)
 _note = _fixed("note", small_values)
 _pair = _fixed("pair", small_values, small_values)
 _pairs = _fixed("pairs", small_values)
-benign_call = st.one_of(_total, _note, _pair, _pairs, _incr, _incr, st.just(["incr", [], {}]), _append, _append, _put, _put, _put, _get, _echo, _echo, _fail_no,
+benign_call = st.one_of(st.just(["view", [], {}]), _total, _note, _pair, _pairs, _incr, _incr, st.just(["incr", [], {}]), _append, _append, _put, _put, _put, _get, _echo, _echo, _fail_no,
                         st.just(["snapshot", [], {}]))
 
 _raise = _fixed("fail_if", st.sampled_from([True, 1, "x", [0], -1.5, {"a": None}]),
@@ -708,7 +726,8 @@ _missing = _fixed("get", st.sampled_from(["missing", "☃", -99, None]))
 _signature = st.tuples(st.integers(0, 6), small_values).map(
     lambda t: [["incr", ["x"], {}], ["incr", [1, 2], {}], ["put", [t[1]], {}], ["incr", [], {"bogus": t[1]}], ["put", [[1], t[1]], {}],
                ["append", [], {}], ["get", [t[1]], {"self": 1}]][t[0]])
-failing_call = st.one_of(_raise, _raise, _raise, _raise, _refused, _refused, _refused, _missing, _signature)
+_unsendable = st.sampled_from([["unsendable", [], {}], ["unsendable", ["nested"], {}]])
+failing_call = st.one_of(_raise, _raise, _raise, _raise, _refused, _refused, _refused, _missing, _signature, _unsendable)
 
 
 @st.composite
